@@ -1,1 +1,19 @@
-// harnesses for vk_net
+// Child module of vhost::vhost_kern::net.  C19 for vhost-net.
+use super::*;
+use crate::vhost_kern::verif::*;
+use std::os::unix::io::FromRawFd;
+
+// @harness props=C19 tier=quick reach=off bound="Net::set_backend: all queue indexes, with/without tap descriptor" stubs="vmm_sys_util::ioctl::* (ghost kernel), sysconf"
+k_proof! { fn c19_net_set_backend() {
+    // SAFETY: descriptor numbers only
+    let n = std::mem::ManuallyDrop::new(Net { fd: unsafe { File::from_raw_fd(KFD) }, mem: empty_mem() });
+    let tap = std::mem::ManuallyDrop::new(unsafe { File::from_raw_fd(44) });
+    let qi: usize = kani::any();
+    let with: bool = kani::any();
+    let r = n.set_backend(qi, if with { Some(&*tap) } else { None });
+    expect_ioctl(uapi::U_VHOST_NET_SET_BACKEND, uapi::USZ_VRING_FILE);
+    assert!(a32(uapi::UOFF_VRING_FILE_INDEX) == qi as u32);
+    assert!(a32(uapi::UOFF_VRING_FILE_FD) == if with { 44 } else { u32::MAX }, "C19: -1 detaches the backend");
+    assert!(r.is_ok());
+    std::mem::forget(r);
+} }
